@@ -635,3 +635,20 @@ package parse
 //@   nopanic
 //@   ensures implies(ctx == "", result0 == t.ParseName + ":" + itoa(lineOf(t.text, pos)) + ":" + itoa(colOf(t.text, pos)))
 //@   ensures implies(ctx != "", result0 == t.ParseName + ":" + itoa(lineOf(t.text, pos)) + ":" + itoa(colOf(t.text, pos)) + ": " + ctx)
+
+// ---------------------------------------------------------------------------
+// Section order of a (sub)module (C09; RFC 6020 12: header, linkage, meta, revision, body statements in this order):
+// accepted iff the sections of its statements never decrease - extension statements (prefix:keyword) may stand
+// anywhere and are not counted.
+//@ define secT(t) = ite(t == NodeYangVersion || t == NodeNamespace || t == NodePrefix || t == NodeBelongsTo, 0,
+//@        ite(t == NodeImport || t == NodeInclude, 1,
+//@        ite(t == NodeOrganization || t == NodeContact || t == NodeDescription || t == NodeReference, 2,
+//@        ite(t == NodeRevision, 3, 4))))
+//@ define secOf(n, i) = secT(node_type(node_childat(n, i)))
+//@ define isExt(n, i) = node_type(node_childat(n, i)) == NodeUnknown
+//@ define ordered(n, hi) = forall(i, 0, hi, forall(j, i+1, hi, implies(!isExt(n, i) && !isExt(n, j), secOf(n, i) <= secOf(n, j))))
+//@ func checkModule
+//@   requires n != nil
+//@   ensures iff(result == nil, ordered(n, node_nchildren(n)))
+//@   loop 0 invariant 0 <= prev && prev <= 4 && ordered(n, loopidx+1) && forall(i, 0, loopidx+1, implies(!isExt(n, i), secOf(n, i) <= prev))
+//@   loop 0 invariant prev == 0 || exists(i, 0, loopidx+1, !isExt(n, i) && secOf(n, i) == prev)
